@@ -16,7 +16,7 @@ theorem Solid.fwVerified {s : St} {k : Key} {n : Node} (h : Solid s k) (hn : s.n
 theorem Frame.log_nil {p : Program} {s s' : St} (hl : s'.log = s.log)
     (hn : ∀ x, s.nodes x = none → s'.nodes x = none) :
     ∃ new, s'.log = s.log ++ new ∧ new.Nodup ∧
-      (∀ x, x ∈ new → (Just p s x ∨ Forced s s' x) ∧ Verified s' x) ∧
+      (∀ x, x ∈ new → Just p s x ∧ Verified s' x) ∧
       ∀ x, s.nodes x = none → s'.nodes x ≠ none → x ∈ new :=
   ⟨[], by simp [hl], by simp, fun _ h => (by cases h), fun x h h' => absurd (hn x h) h'⟩
 
@@ -65,43 +65,6 @@ theorem Frame.just {p : Program} {s s' : St} (f : Frame p s s') {x : Key} (h : J
   refine ⟨fun hv => hnv (f.verified hv), ?_⟩
   rw [e, f.cur] at h
   exact h
-
-/-- a forced execution seen from an earlier state -/
-theorem Frame.forced {p : Program} {s s' s'' : St} (f : Frame p s s') (g : Frame p s' s'') {x : Key}
-    (h : Forced s' s'' x) : Forced s s'' x := by
-  obtain ⟨hnv, n, fk, o, hn, hk, hm, hc⟩ := h
-  have e : s'.nodes x = s.nodes x := f.node_of_unverified hnv
-  refine ⟨fun hv => hnv (f.verified hv), n, fk, o, by rw [← e]; exact hn, hk, hm, ?_⟩
-  rcases hc with hp | ⟨nf, nf', hnf, hnf', hd⟩
-  · -- pending in `s'`
-    cases hf' : s'.nodes fk with
-    | none => simp [hasPending, hf'] at hp
-    | some nf' =>
-      have hp' : nf'.pendingBP = true := by simpa [hasPending, hf'] using hp
-      obtain ⟨nf, hnf, hc⟩ := f.pend fk nf' hf' hp'
-      rcases hc with hc | hc
-      · exact Or.inl (by simp [hasPending, hnf, hc])
-      · -- changed between `s` and `s'`: the node is then verified in `s'` and keeps its data
-        cases f.same_or_verified fk with
-        | inl e' =>
-          rw [hf', hnf] at e'; cases e'
-          rcases hc with hc | hc <;> exact absurd rfl hc
-        | inr v =>
-          obtain ⟨nv, hnv', hvv⟩ := v
-          rw [hf'] at hnv'; cases hnv'
-          obtain ⟨nf'', hnf'', a, b⟩ := g.vkeep fk nf' hf' hvv
-          refine Or.inr ⟨nf, nf'', hnf, hnf'', ?_⟩
-          rw [a, b]; exact hc
-  · cases f.same_or_verified fk with
-    | inl e' => exact Or.inr ⟨nf, nf', by rw [← e']; exact hnf, hnf', hd⟩
-    | inr v =>
-      obtain ⟨nv, hnv', hvv⟩ := v
-      rw [hnf] at hnv'; cases hnv'
-      obtain ⟨nf'', hnf'', a, b⟩ := g.vkeep fk nf hnf hvv
-      rw [hnf'] at hnf''; cases hnf''
-      rcases hd with hd | hd
-      · exact absurd a hd
-      · exact absurd b hd
 
 theorem Frame.trans {p : Program} {s s' s'' : St} (f : Frame p s s') (g : Frame p s' s'') :
     Frame p s s'' where
@@ -167,37 +130,12 @@ theorem Frame.trans {p : Program} {s s' s'' : St} (f : Frame p s s') (g : Frame 
       refine ⟨nd1, nd2, ?_⟩
       intro a ha b hb hab
       subst hab
-      have hv := (j1 a ha).2
-      rcases (j2 a hb).1 with h | h
-      · exact h.1 hv
-      · exact h.1 hv
+      exact (j2 a hb).1.1 (j1 a ha).2
     · intro x hx
       rw [List.mem_append] at hx
       cases hx with
-      | inl hx =>
-        refine ⟨?_, g.verified (j1 x hx).2⟩
-        rcases (j1 x hx).1 with h | h
-        · exact Or.inl h
-        · -- the callee's change is still visible in `s''`
-          right
-          obtain ⟨hnv, n, fk, o, hn, hk, hm, hc⟩ := h
-          refine ⟨hnv, n, fk, o, hn, hk, hm, ?_⟩
-          rcases hc with hp | ⟨nf, nf', hnf, hnf', hd⟩
-          · exact Or.inl hp
-          · cases f.same_or_verified fk with
-            | inl e =>
-              rw [hnf', hnf] at e; cases e
-              rcases hd with h | h <;> exact absurd rfl h
-            | inr v =>
-              obtain ⟨nv, hnv', hvv⟩ := v
-              rw [hnf'] at hnv'; cases hnv'
-              obtain ⟨n2, hn2, a, b⟩ := g.vkeep fk nf' hnf' hvv
-              exact Or.inr ⟨nf, n2, hnf, hn2, by rw [a, b]; exact hd⟩
-      | inr hx =>
-        refine ⟨?_, (j2 x hx).2⟩
-        rcases (j2 x hx).1 with h | h
-        · exact Or.inl (f.just h)
-        · exact Or.inr (f.forced g h)
+      | inl hx => exact ⟨(j1 x hx).1, g.verified (j1 x hx).2⟩
+      | inr hx => exact ⟨f.just (j2 x hx).1, (j2 x hx).2⟩
     · intro x hx hx''
       rw [List.mem_append]
       cases hx' : s'.nodes x with
